@@ -73,7 +73,7 @@ def run_cases(chk, binp, cases, pf_ok, pf):
     tie, viol, judged, known = [], [], 0, 0
     dist = {"nil": 0, "valid": 0, "invalid": 0, "panic": 0}
     types, distinct = {}, set()
-    inside = [0, 0, 0]
+    inside = [0, 0, 0, 0]
     for j in J:
         g, c = j["go"], j["case"]
         if g is None:
@@ -100,13 +100,15 @@ def run_cases(chk, binp, cases, pf_ok, pf):
             inside[0] += 1
             typed = len(fr) > 2 and fr[2]
             if typed:
-                inside[2] += 1       # through C16_typed_values_agree_with_the_reading_of_the_value_they_carry_partial only
+                inside[2] += 1       # only under the divisibility clause (mult_iface), which is not proved of binary64
+            if len(fr) > 3 and fr[3]:
+                inside[3] += 1       # typed values, through C16_typed_agreement_for_the_binary64_model
             m = j["model"]
             if m is None or m.get("outcome") != "ok" or m.get("nil") or m.get("valid") != fr[1]:
                 # for typed values the theorem assumes the numeric interface is exact: a difference here also says that
                 # the binary64 instance breaks that assumption on this case
-                chk.violation("the extracted model contradicts %s" % ("the typed-value agreement theorem (or the binary64 instance is not exact on this case)"
-                                                                      if typed else "C16_agreement_for_the_binary64_model"),
+                chk.violation("the extracted model contradicts %s" % ("the typed-value agreement theorem (or the binary64 divisibility test is not exact on this case)"
+                                                                      if typed else "C16_agreement_for_the_binary64_model / C16_typed_agreement_for_the_binary64_model"),
                               {"theorem_or_correspondence": "extraction of the simple-schema class", "case": c, "model": m, "reading": fr[1]}, no_input=True)
             elif g["valid"] != fr[1]:
                 inside[1] += 1
@@ -147,12 +149,13 @@ def run_cases(chk, binp, cases, pf_ok, pf):
         "obligations": pf["obligations"], "discharged": pf["discharged"], "theorems": pf["theorems"],
         "checker_cmd": "make -C coq && coqc -Q theories Verif theories/Properties/C16.v",
         "trusted_base": C.TRUSTED_BASE_COMMON + ["axioms: " + (", ".join(pf["axioms"]) or "none"),
-                                                 "typed values: the theorems assume exact_iface and carrier_iface of the numeric implementation; the Flocq binary64 "
-                                                 "instance is not proved to satisfy them (compared with the reading on every case inside the typed class instead)",
+                                                 "typed values: exact_iface and carrier_iface are proved of the Flocq binary64 instance (Base/F64Exact.v, Schema/NumericFlocq.v); "
+                                                 "only 'multipleOf rejects a non-divisor' (mult_iface) is assumed - such cases are counted apart and compared with the reading one by one",
                                                  "exact oracle lib/simplerun.py:simple_ok (python fractions) for the failing-input search"],
         "evaluations": len(J), "distinct_nontrivial": len(distinct),
         "cases_inside_the_proved_class": inside[0], "of_which_go_differs_from_the_reading": inside[1],
-        "of_which_typed_values_conditional_on_the_exact_numeric_interface": inside[2],
+        "of_which_typed_values_proved_of_the_binary64_model": inside[3],
+        "of_which_only_under_the_unproved_divisibility_clause": inside[2],
         "rule": "random simple-schema definitions (type x format of that type x constraint families, items nested to depth 4) as "
                 "parameters and headers, with typed Go values built by reflection (10 integer kinds, float32/64, strings, bools, []T, "
                 "[][]T, []interface{}), mostly of the declared kind; each validated plain and recycling, compared with the model and "
